@@ -29,7 +29,11 @@ def run(ctx):
                 "the same races; lookups whose connector fails synchronously (no hints, unknown type, malformed, handler raises, refused at once, "
                 "mixtures; 1-3 in a row; fresh / after a lost connection / after a peer restart / queued before the start; peer or third "
                 "Tub) followed by a good lookup (fault-free: must succeed; black hole: must fail at its own time-out), an inbound "
-                "connection, both, or a good lookup from inside the errback; an exception raised inside a timer callback is logged and the loop goes on, as in a reactor")
+                "connection, both, or a good lookup from inside the errback; an exception raised inside a timer callback is logged and the loop goes on, as in a reactor; "
+                "(d) SECOND LEG of getReference: either Tub dials (1-2 hints), blocks are delivered until the dialler / both hold a Broker, the "
+                "network then drops every link SILENTLY (no close notification), 20 x 130 s pass, then the dialler's end is told: the "
+                "getReference must fire exactly once, with DeadReferenceError, when told (oracle); while silent it stays pending (NOTE, "
+                "known limitation, C14_every_getReference_fires_within_timeout_refuted); the model's composed run is compared with the real Tubs")
     ctx.assumptions = [
         "TLS is a no-op startTLS; peerFromTransport returns the peer Tub's certificate",
         "the model delivers whole negotiation blocks; the GET/101 exchange and the TCP connect are folded into the dial step "
@@ -48,6 +52,12 @@ def run(ctx):
         "its own iteration), compared with real Negotiation objects / real Tubs; they are composed with the two-Tub model through "
         "their statements (the hello carries the dialler's record of THAT peer; a queued Deferred has exactly one lookup, made at the "
         "start), not as one product state",
+        "second leg of getReference: the request table is C03's model (lib/Requests.v) driven by the two-Tub model for ONE Broker "
+        "(lib/ConvergeRef.v: Broker.finish exactly when that end stops being a live Broker; one callRemote per lookup answered with it); "
+        "what travels on the established connection (the call, its answer) is not in the two-Tub model: answers arrive as events of "
+        "their own (PWire); TCP's own retransmission time-out (which would eventually turn an unanswered keepalive PING into a "
+        "connectionLost, far beyond CONNECTION_TIMEOUT and outside foolscap) is not modelled; Tub.disconnectTimeout = None by "
+        "default is a translated shape fact",
     ]
     ok, log = ctx.coq_build(["props/C14.vo"])
     from harness import c14_impl as impl
@@ -69,6 +79,11 @@ def run(ctx):
     if model_ok:
         layers_ok, _ = ctx.coq_build(["lib/ConvergeLayers.vo"])
     correspond_layers(ctx, impl, layers_ok)
+    # (b'') the second leg of getReference (lib/RefLeg.v + lib/ConvergeRef.v): black-holed established connection
+    ref_ok = model_ok
+    if model_ok and not ok:
+        ref_ok, _ = ctx.coq_build(["lib/ConvergeRef.vo"])
+    second_leg(ctx, impl, ref_ok)
     # (c) direct oracle
     oracle.run_all(ctx)
     if not ok:
@@ -370,3 +385,98 @@ def correspond_layers(ctx, impl, model_ok):
                          replay=dict(case=case, real=real, model=mv), has_input=False)
     ctx.extra["layer_cases"] = len(scripts) + len(pcases)
     ctx.extra["layer_disagreements"] = nbad
+
+
+# ------------------------------------------------------------------------------------------------
+RREQ = ["Verif.lib.PyLite", "Verif.gen.ConvergeGen", "Verif.lib.Converge", "Verif.lib.ConvergeRef"]
+NOTE_BLACK_HOLE = "lookup pending on a black-holed established connection"
+
+
+def second_leg(ctx, impl, model_ok):
+    """Tub.getReference = Broker lookup + b.getYourReferenceByName over the new Broker.  The connection is established, then
+    silently dropped.  ORACLE (with input): once the dialler's end is told of the loss the getReference fires exactly once,
+    with DeadReferenceError, and the request table is empty.  NOTE (not a failure; the property's 'within the connection
+    timeout' is about connection establishment): while nobody is told, it stays pending.  CORRESPONDENCE: the composed
+    model's run ConvergeRef.silent_pops (S dials) says the same as the real Tubs at both moments."""
+    from harness.implenv import quiet
+    cases = [(d, st, h) for d in ("S", "M") for st in ("dialer", "both") for h in (1, 2)]
+    pending_seen = 0
+    real = {}
+    for (d, st, h) in cases:
+        with quiet():
+            try:
+                f = impl.second_leg_case(d, st, h)
+            except Exception as e:
+                import traceback
+                ctx.fail("oracle/exception-escaped", "second-leg case %r raised %r" % ((d, st, h), e),
+                         replay=dict(case=(d, st, h), tb=traceback.format_exc()))
+                continue
+        ctx.case(["second-leg", d, st, h], nontrivial=True)
+        ctx.hist("oracle_kind", "second-leg")
+        if "harness" in f:
+            ctx.fail("oracle/no-connection-without-faults", "second-leg case %r: %s" % ((d, st, h), f["harness"]), replay=f)
+            continue
+        real[(d, st, h)] = f
+        if not f["fired_while_silent"]:
+            pending_seen += 1
+        elif len(f["fired_while_silent"]) > 1:
+            ctx.fail("oracle/lookup", "a getReference of %s fired %d times on a silently dropped connection: %r"
+                     % (d, len(f["fired_while_silent"]), f["fired_while_silent"]), replay=f)
+            continue
+        after = f["fired_after_notification"]
+        if len(after) != 1 or f["requests_after"] or f["dialer_broker_after"]:
+            ctx.fail("oracle/lookup-pending-after-connection-lost",
+                     "%s called getReference (%d hints); blocks were delivered until %s held a Broker (requests pending on it: %r); the "
+                     "network then dropped the link silently and %d s passed (fired meanwhile: %r); then %s's end was told "
+                     "(connectionLost): the getReference Deferred fired %d times (%r), requests still in the table %r, Broker still "
+                     "registered: %r -- it must fire exactly once when the connection is lost"
+                     % (d, h, "it" if st == "dialer" else "both Tubs", f["requests_before"], f["waited"], f["fired_while_silent"], d,
+                        len(after), after, f["requests_after"], f["dialer_broker_after"]), replay=f)
+        elif after != ["DeadReferenceError"] and not f["fired_while_silent"]:
+            ctx.fail("oracle/lookup-lost-connection-not-DeadReferenceError",
+                     "%s's getReference on a lost connection failed with %r instead of DeadReferenceError (case %r)" % (d, after, (d, st, h)),
+                     replay=f)
+    if pending_seen:
+        f = next(v for v in real.values() if not v["fired_while_silent"])
+        ctx.note("%s: in %d of %d cases the getReference Deferred was still pending %d virtual seconds after the network silently "
+                 "dropped an established connection (no FIN/RST; timers left: %r; Tub.disconnectTimeout is None by default, the "
+                 "keepalive timer only writes a PING); it fired (DeadReferenceError) as soon as the end was told. Known limitation, "
+                 "not a failure: C14_every_getReference_fires_within_timeout_refuted / C14_second_leg_fires_iff_answer_or_loss"
+                 % (NOTE_BLACK_HOLE, pending_seen, len(cases), f["waited"], f["timers"]))
+    ctx.extra["second_leg_cases"] = len(cases)
+    ctx.extra["second_leg_pending_while_silent"] = pending_seen
+    if not model_ok:
+        return
+    # correspondence: the composed model on the schedule of real case (S, both, 1)
+    f = real.get(("S", "both", 1))
+    if f is None:
+        return
+    why = "(Requests.RListed RequestsGen.ConnectionLostC)"
+    dts = coq_list([coq_Z(impl.SECOND_LEG_STEP)] * impl.SECOND_LEG_ROUNDS)
+    body = ("Definition bcode (b : bool) : Z := if b then 1%%Z else 0%%Z.\n"
+            "Definition look (l : list pop) := ([bcode (live TS 0 (pnet l)); bcode (live TM 0 (pnet l)); now (pnet l); "
+            "optnat_code (t_broker (ts (pnet l)))], Requests.snapshot (broker_requests TS 0 l)).\n"
+            "Eval vm_compute in look (silent_pops %s %s).\n"
+            "Eval vm_compute in look (silent_pops %s %s ++ [PNet (CloseSeen 0 TS) %s; PWire Requests.Turn]).\n" % (why, dts, why, dts, why))
+    try:
+        m1, m2 = ctx.coq_eval("C14_second_leg", body, requires=RREQ + ["Verif.gen.RequestsGen"])
+    except common.CoqEvalError as e:
+        ctx.fail("correspondence-broken", "lib/ConvergeRef.v could not be evaluated: " + str(e)[-1500:], has_input=False)
+        return
+    ctx.traces += 1
+
+    def canon(m):
+        (flags, (table, fires, (disc, evq, raised))) = m
+        return dict(dialer_broker=bool(flags[0]), peer_broker=bool(flags[1]), now=flags[2], registered=flags[3] >= 0,
+                    requests=list(table), fired=[list(x) for x in fires], disconnected=bool(disc))
+    code = {"ok": 1, "DeadReferenceError": 4}
+    r1 = dict(dialer_broker=f["dialer_broker_silent"], peer_broker=f["peer_broker_silent"], now=f["waited"],
+              registered=f["dialer_broker_silent"], requests=f["requests_silent"],
+              fired=[[code.get(k, 9) for k in f["fired_while_silent"]]], disconnected=f["disconnected_silent"])
+    r2 = dict(dialer_broker=f["dialer_broker_after"], peer_broker=f["peer_broker_silent"], now=f["waited"],
+              registered=f["dialer_broker_after"], requests=f["requests_after"],
+              fired=[[code.get(k, 9) for k in f["fired_after_notification"]]], disconnected=f["disconnected_after"])
+    for tag, r, m in (("silent", r1, canon(m1)), ("notified", r2, canon(m2))):
+        if r != m:
+            ctx.fail("correspondence/second-leg", "composed model (lib/ConvergeRef.v) and the real Tubs disagree on the black-holed "
+                     "getReference (%s): real %r, model %r" % (tag, r, m), replay=dict(real=r, model=m, facts=f), has_input=False)
